@@ -25,14 +25,16 @@ MANIFEST = dict(
           "equals that of the object freshly constructed at the translated position; the returned object is a different object, attribute-wise equal, and shares no mutable state with the receiver or with v; v is unchanged; "
           "move(v) then move(-v) restores every attribute; a non-Vector argument raises and leaves the receiver unchanged (all seven types). Since the re-established representation invariant is the precondition of every query contract, "
           "any sequence of moves leaves every query answering as on a fresh object."),
-    note=("ConvexPolygon.move is proved for n = 3..7 (thorough ..8) for the receiver's state (vertices, plane, centre; the returned object is what the constructor builds from the receiver's new vertices - the constructor enters by that contract); "
-          "ConvexPolyhedron.move (rebuilds hash sets and pyramids) and mixed histories of 1-6 moves interleaved with deep copies and queries (==, hash, membership, intersection, measures, volume()) on all seven types, receiver and returned object "
+    note=("ConvexPolygon.move is proved for n = 3..7 (thorough ..8) for the receiver's state (vertices, plane, the normal stays on its side, centre; the returned object is what the constructor builds from the receiver's new vertices - the constructor enters by that contract); "
+          "ConvexPolyhedron.move is proved in the thorough tier on tetrahedra with symbolic vertices built by the real constructor (96 obligations: faces, vertex / edge / pyramid sets, centre, outward normals of the receiver, the returned body and its ownership; "
+          "ConvexPolygon.move enters by its contract, whose clause 'a counter-clockwise triangle comes back from the vertex sort as given' is proved on the real _check_and_sort_points as a callee-contract group); on every change "
+          "ConvexPolyhedron.move (rebuilds hash sets and pyramids; centre and pyramid apexes compared with the freshly built body, bodies with non-uniform vertex valence included) and mixed histories of 1-6 moves interleaved with deep copies and queries (==, hash, membership, intersection, measures, volume()) on all seven types, receiver and returned object "
           "against freshly constructed objects, are a labelled bounded stand-in (not counted as proved). A1, A5."),
     technique='contract-based deductive verification of move() attribute-wise against fresh construction (z3) + labelled bounded move histories against freshly constructed objects',
     design_ref="DESIGN.md section 9 (C07)",
 )
 EXPLANATION = "move contracts proved attribute-wise against the fresh construction; history claims follow by induction from the re-established invariant"
-BOUNDED_ONLY = ["Geometry3D.geometry.polyhedron:ConvexPolyhedron.move", "Geometry3D.geometry.polygon:ConvexPolygon.move (n > 8, returned object)"]
+BOUNDED_ONLY = ["Geometry3D.geometry.polyhedron:ConvexPolyhedron.move (quick tier; beyond tetrahedra in the thorough tier)", "Geometry3D.geometry.polygon:ConvexPolygon.move (n > 8, returned object)"]
 ASSUMES = ["A1", "A2", "A5", "A6"]
 
 
